@@ -1,7 +1,149 @@
-/-  C12/Driver — line protocol front end (core-only).  Placeholder until the property is built. -/
+/-
+  C12/Driver — line protocol front end (core-only).
+  requests (doubles are 16-hex bit patterns):
+    obs <v>                        new Date(v): valueOf,getTime,getUTCFullYear,Month,Date,Day,Hours,Minutes,Seconds,Milliseconds
+    iso <v> | json <v>             new Date(v).toISOString() / .toJSON()
+    rt <v>                         Date.parse(new Date(v).toISOString())
+    utc <a1> … <an>   (2 ≤ n ≤ 8) Date.UTC(a1,…,an)
+    ctor <a1> … <an>  (2 ≤ n ≤ 8) new Date(a1,…,an) with local time = UTC: the ten observations
+    set <v> <step>…                d = new Date(v); each step `name:arg,arg…` is d.setUTC<name>(args) (time = setTime);
+                                   reply: return values, then `|`, then the ten observations of the final object
+  reply:  <model> <spec> <dev>
+-/
 import OttoVerif.Base.Proto
+import OttoVerif.C12.Model
+import OttoVerif.C12.Spec
 namespace OttoVerif.C12.Driver
+open OttoVerif.F64 OttoVerif.Proto OttoVerif.C12
 
-def handle (_ws : List String) : String := "bad-op"
+/-- a number as the harness prints it: the exact integer value of the double the Value converts to -/
+def numOut : Option Int → String
+  | none => "NaN"
+  | some i => toString (truncInt (ofInt i))
+
+def join (xs : List String) : String := ",".intercalate xs
+
+def strOut : OttoVerif.C12.Str → String
+  | .ok b => "s:" ++ bytesOut b
+  | .rangeError => "throw:RangeError"
+  | .null => "null"
+
+def strOutS : Spec.Str → String
+  | .ok b => "s:" ++ bytesOut b
+  | .rangeError => "throw:RangeError"
+  | .null => "null"
+
+def obsModel (d : DateObj) : String :=
+  match observe d with
+  | v :: rest => join ((v :: getTime d :: rest).map numOut)
+  | [] => "?"
+
+def obsSpec (tv : Spec.TV) : String :=
+  match Spec.observe tv with
+  | v :: rest => join ((v :: v :: rest).map numOut)
+  | [] => "?"
+
+def outOfRange (t : Int) : Bool := t.natAbs > 8640000000000000
+
+/-- region: the value reaching TimeClip is finite but beyond ±8.64e15 -/
+def clipFires (raw : Option Int) : Bool :=
+  match raw with
+  | some t => outOfRange t
+  | none => false
+
+def devList (ds : List String) : String :=
+  let ds := ds.eraseDups
+  if ds.isEmpty then "-" else ",".intercalate ds
+
+def setterM? : String → Option Setter
+  | "Milliseconds" => some .ms | "Seconds" => some .sec | "Minutes" => some .min | "Hours" => some .hour
+  | "Date" => some .date | "Month" => some .month | "FullYear" => some .year | "time" => some .time | _ => none
+
+def toSpecSetter : Setter → Spec.Setter
+  | .ms => .ms | .sec => .sec | .min => .min | .hour => .hour | .date => .date | .month => .month | .year => .year | .time => .time
+
+def step? (w : String) : Option (Setter × List FV) :=
+  match w.splitOn ":" with
+  | [k, a] => do
+    let k ← setterM? k
+    let as ← if a.isEmpty then some [] else (a.splitOn ",").mapM f64?
+    pure (k, as)
+  | _ => none
+
+/-- lock-step run of model and spec over a history, collecting deviation regions -/
+def runBoth (d : DateObj) (tv : Spec.TV) : List (Setter × List FV) → List String → (DateObj × List Num) × (Spec.TV × List Spec.TV) × List String
+  | [], devs => ((d, []), (tv, []), devs)
+  | (k, a) :: rest, devs =>
+    let raw := Spec.setUTCRaw (toSpecSetter k) tv a
+    let devs := if clipFires raw then devs ++ ["no_timeclip"] else devs
+    let devs := if k = .year ∧ tv.isNone ∧ raw.isSome then devs ++ ["setfullyear_invalid"] else devs
+    let devs := if k = .time ∧ d.isNaN ∧ raw.isSome then devs ++ ["settime_sticky_invalid"] else devs
+    let (d', r) := setUTC k d a
+    let tv' := Spec.setUTC (toSpecSetter k) tv a
+    let ((df, rs), (tf, ss), devs) := runBoth d' tv' rest devs
+    ((df, r :: rs), (tf, tv' :: ss), devs)
+
+def isoDev (v : FV) : List String :=
+  match Spec.field? v with
+  | none => []
+  | some t =>
+    if outOfRange t then ["no_timeclip"]
+    else
+      let y := Spec.YearFromTime t
+      if 0 ≤ y ∧ y ≤ 9999 then [] else ["iso_expanded_year"]
+
+def utcDev (args : List FV) : List String :=
+  let d1 := if clipFires (Spec.dateUTCRaw args) then ["no_timeclip"] else []
+  let d2 := match args.head? with
+    | some y => match Spec.field? y with
+      | some i => if 0 ≤ i ∧ i ≤ 99 ∧ !(le zero y && le y (.fin false 99 0)) ∧ (Spec.dateUTCRaw args).isSome then ["twodigit_fraction"] else []
+      | none => []
+    | none => []
+  d1 ++ d2
+
+def reply (m s : String) (dev : String) : String := m ++ " " ++ s ++ " " ++ dev
+
+def handle (ws : List String) : String :=
+  match ws with
+  | ["obs", a] => match f64? a with
+    | some v =>
+      let dev := if clipFires (Spec.field? v) then ["no_timeclip"] else []
+      reply (obsModel (newDate v)) (obsSpec (Spec.clipNumber v)) (devList dev)
+    | none => "bad-op"
+  | ["iso", a] => match f64? a with
+    | some v =>
+      let dev := isoDev v ++ (if (Spec.field? v).isNone then ["iso_invalid_no_throw"] else [])
+      reply (strOut (toISOString (newDate v))) (strOutS (Spec.toISOString (Spec.clipNumber v))) (devList dev)
+    | none => "bad-op"
+  | ["json", a] => match f64? a with
+    | some v => reply (strOut (toJSON (newDate v))) (strOutS (Spec.toJSON (Spec.clipNumber v))) (devList (isoDev v))
+    | none => "bad-op"
+  | ["rt", a] => match f64? a with
+    | some v =>
+      let s := match Spec.clipNumber v with
+        | some t => Spec.parseOfISO t
+        | none => none
+      reply (numOut (parseOfISO (newDate v))) (numOut s) (devList (isoDev v))
+    | none => "bad-op"
+  | "utc" :: as => match as.mapM f64? with
+    | some args =>
+      if args.length < 2 then "bad-op" else
+      reply (numOut (newDateTime args)) (numOut (Spec.dateUTC args)) (devList (utcDev args))
+    | none => "bad-op"
+  | "ctor" :: as => match as.mapM f64? with
+    | some args =>
+      if args.length < 2 then "bad-op" else
+      let m := match newDateTime args with
+        | some i => newDate (ofInt i)
+        | none => newDate .nan
+      reply (obsModel m) (obsSpec (Spec.dateUTC args)) (devList (utcDev args))
+    | none => "bad-op"
+  | "set" :: a :: steps => match f64? a, steps.mapM step? with
+    | some v, some hs =>
+      let dev0 := if clipFires (Spec.field? v) then ["no_timeclip"] else []
+      let ((df, rs), (tf, ss), devs) := runBoth (newDate v) (Spec.clipNumber v) hs dev0
+      reply (join (rs.map numOut) ++ "|" ++ obsModel df) (join (ss.map numOut) ++ "|" ++ obsSpec tf) (devList devs)
+    | _, _ => "bad-op"
+  | _ => "bad-op"
 
 end OttoVerif.C12.Driver
